@@ -18,6 +18,8 @@ Decided structurally:
                 (tidy_model/read_input: get_input_errors() > 0 -> error_msg(.., STOP))
   C08.clear     error and warning reporters are cleared before the engine runs in every entry point
   C08.keywords  every keyword enumerator has a name and a read_input case; unknown keyword -> STOP error
+  C08.restore   wrapper switches that a call saves, overrides and restores (LoadDatabase*, error_msg, warning_msg) are restored
+                on every normal path: a failed call does not leave the user's settings changed
   C08.bounded   fixed-extent destination buffers: Phreeqc::copy_token(char*) stores at most MAX_LENGTH-1 characters and every
                 caller passes an array of at least MAX_LENGTH bytes; no strcpy/strcat/sprintf/sscanf(%s) targets a fixed array
 NOT decided: memory safety / absence of undefined behaviour for all byte sequences in general (no sound buffer or alias
@@ -223,6 +225,7 @@ def run(P, R, tier):
     pair_rules(P, R, mt, cg)
     keyword_rules(P, R, mt)
     bounded_rules(P, R)
+    restore_rules(P, R)
     stdthrow_census(P, R, reach)
 
 
@@ -727,6 +730,68 @@ def const_int(n):
         if a is not None and b is not None:
             return a - b if n[2] == "-" else a + b
     return None
+
+
+# ------------------------------------------------------------------------------------------ save / restore of wrapper switches
+
+def restore_rules(P, R):
+    """IPhreeqc methods that temporarily override a member (`bool save = this->X; this->X = v; ...; this->X = save;`) must
+    restore it on every normal path: an early return between override and restore leaves the instance with the temporary
+    value - a failed call poisons the user's settings."""
+    R.rule("C08.restore", "wrapper members that are saved, overridden and restored are restored on every normal path (no early return in between)", minimum=6)
+
+    def fpath(n):
+        r, st = T.access_path(n)
+        if r == ("this",) and st and all(s_[0] == "f" for s_ in st):
+            return tuple(s_[1] for s_ in st)
+        return None
+    for key, f in sorted(P.functions.items()):
+        if not f["q"].startswith("IPhreeqc::"):
+            continue
+        saves = {}
+        for x in T.walk(f["body"]):
+            if x[0] == "Decl":
+                for d in x[2]:
+                    if T.is_node(d[2]) and T.strip_casts(d[2])[0] == "Member" and fpath(d[2]):
+                        saves[d[0]] = fpath(d[2])
+        if not saves:
+            continue
+        cfg = T.CFG(f)
+        pd = cfg.dominators(post=True)
+
+        def node_of(n):
+            for nd in cfg.nodes:
+                if T.is_node(nd["n"]) and any(y is n for y in T.walk(nd["n"])):
+                    return nd["id"]
+            return None
+        for loc, fp in sorted(saves.items()):
+            restores, overw = [], []
+            for t, how, line, node in T.writes(f["body"]):
+                if fpath(t) == fp and how == "=" and node[0] == "Bin":
+                    rv = T.strip_casts(node[4])
+                    if T.is_node(rv) and rv[0] == "Ref" and rv[2] == "local" and rv[3] == loc:
+                        restores.append(node)
+                    else:
+                        overw.append(node)
+            if not overw:
+                continue
+            inst = "%s:%s" % (f["q"].split("::")[-1], fp[-1].split("::")[-1])
+            if not restores:
+                continue       # a plain copy of a member, not a save/restore idiom
+            rn = [node_of(r) for r in restores]
+            bad = []
+            for o in overw:
+                on = node_of(o)
+                if on is None or on not in pd:
+                    continue
+                if not any(r in pd[on] for r in rn if r is not None):
+                    bad.append(o[1])
+            if bad:
+                R.violation("C08.restore", inst, "`%s` is saved in `%s`, overridden at line %s and restored at line %s, but a normal path (an early return) leaves %s without "
+                            "the restore: after a failing call the instance keeps the temporary value" % (fp[-1].split("::")[-1], loc, bad, [r[1] for r in restores], f["q"]),
+                            file=f["file"], line=bad[0], function=f["q"])
+            else:
+                R.ok("C08.restore", inst, "restore at line %s post-dominates the override" % [r[1] for r in restores])
 
 
 # ------------------------------------------------------------------------------------------ std exceptions (information)
